@@ -31,6 +31,7 @@ Inductive c15_case :=
 | CHead (name : string) (req : fval)
         (n : Z)                    (* length of the stored slice the request indexes into (shard hashes of the addressed DA item), 0 otherwise *)
         (o : option (list bool))   (* outcomes of the state-dependent branches, when the harness can determine them from the state *)
+        (ratio : Z)                (* raw price ratio of the liquidity pool the request addresses (read from the state), 0 otherwise *)
         (obs : Z)
 | CLiq (base : bool)      (* types.LiquidityBase (true) / LiquidityQuote (false), called directly *)
        (amount sa sb : Z)  (* amount, the two sqrt prices (raw decimals) *)
@@ -83,7 +84,11 @@ Definition head_corr (name : string) (req : fval) (n : Z) (o : option (list bool
       match (match o with Some ol => run n ol cs req | None => run_static n cs req end) with
       | Err _ => obs =? O_ERR          (* the head rejects (statically, or given the branch outcomes): the handler must return an error *)
       | Panic => obs =? O_PANIC
-      | Ok _ => true                   (* beyond the static part the model makes no prediction *)
+      | Ok _ =>                        (* beyond the modelled part no prediction, unless the head ends in KDone: *)
+          match o with                 (* then the handler accepts *)
+          | None => if static_done n cs req then obs =? O_OK else true
+          | Some _ => true
+          end
       end
   | _, _ => false
   end.
@@ -112,18 +117,23 @@ Fixpoint val_big (v : fval) : bool :=
   | VRoute (Some r) => route_big r
   | _ => false
   end.
-(* KF2: a tick of magnitude >= 10^6 in the liquidity-pool position messages: priceRatio^tick
-   overflows the decimal range inside Power *)
+(* KF2: priceRatio^tick overflows the decimal range inside Power (TickToMultipliedPrice) in the
+   liquidity-pool position calls.  ratio^|tick| leaves the range when |tick| * ln(ratio) exceeds
+   about 175; since ln(r) <= r - 1 the trigger |tick| * (ratio - 1) >= 100 contains every such case
+   (for the usual ratio 1.0001 it is |tick| >= 10^6; for the largest admissible ratio 1.5, |tick| >= 200).
+   Without a pool (ratio unknown) the bound for the smallest admissible ratio is used. *)
 Definition TICK_BIG : Z := 1000000.
-Definition tick_at (p : path) (req : fval) : bool :=
+Definition tick_big (ratio t : Z) : bool :=
+  if ratio <=? P then TICK_BIG <=? Z.abs t else 100 * P <=? Z.abs t * (ratio - P).
+Definition tick_at (ratio : Z) (p : path) (req : fval) : bool :=
   match get p req with
-  | Some (VNum z) => TICK_BIG <=? Z.abs z
-  | Some (VStr s) => match si_int s with Some z => TICK_BIG <=? Z.abs z | None => false end
+  | Some (VNum z) => tick_big ratio z
+  | Some (VStr s) => match si_int s with Some z => tick_big ratio z | None => false end
   | _ => false
   end.
-Definition trig_tick (name : string) (req : fval) : bool :=
-  if String.eqb name "liquiditypool.Msg.CreatePosition" then tick_at [2%nat] req || tick_at [3%nat] req
-  else if String.eqb name "liquiditypool.Query.CalculationCreatePosition" then tick_at [1%nat] req || tick_at [2%nat] req
+Definition trig_tick (name : string) (req : fval) (ratio : Z) : bool :=
+  if String.eqb name "liquiditypool.Msg.CreatePosition" then tick_at ratio [2%nat] req || tick_at ratio [3%nat] req
+  else if String.eqb name "liquiditypool.Query.CalculationCreatePosition" then tick_at ratio [1%nat] req || tick_at ratio [2%nat] req
   else false.
 
 Definition meta_big (m : swap_meta) : bool :=
@@ -161,9 +171,9 @@ Definition c15_check (c : c15_case) : list Z :=
       flag 0 (class_of (route_validate patched r) =? obs) ++ flag 1 (negb (obs =? O_PANIC))
   | CMeta m obs =>
       flag 0 (class_of (meta_validate patched m) =? obs) ++ flag 1 (negb (obs =? O_PANIC))
-  | CHead name req n o obs =>
+  | CHead name req n o ratio obs =>
       flag 0 (head_corr name req n o obs) ++ flag 1 (negb (obs =? O_PANIC)) ++
-      (if val_big req then [101] else []) ++ (if trig_tick name req then [102] else [])
+      (if val_big req then [101] else []) ++ (if trig_tick name req ratio then [102] else [])
   | CLiq base amount sa sb obs v =>
       (* the pure function is not an entry point: its overflow on out-of-range operands is not a
          finding here; a division by zero is (the zero-width operands are reachable from a query) *)
